@@ -58,6 +58,8 @@ class C13(Property):
         "Flatland.C13.Proofs.C13_partial",
         "Flatland.C13.Proofs.find_fq_addressable",
         "Flatland.C13.Proofs.C13_full_fails",
+        "Flatland.C13.Proofs.C13_full_fails_backslash",
+        "Flatland.C13.Proofs.find_one_fq",
         "Flatland.Path.Lemmas.tokenize_segs",
         "Flatland.Path.Lemmas.pyInt_natStr",
     ]
